@@ -90,7 +90,9 @@ theorem pres_addNode (n : String) (c : R) : Pres (onSt (InvNo n)) (addNode n c) 
   · apply pres_ite
     · exact pres_bind (pres_invNo_step n _ _ id (fun s h => h)) (fun _ => pres_refuse _)
     · exact pres_invNo_step n _ _ (pAddNode n c) (fun s h => invNo_zero h rfl rfl rfl)
-  · exact pres_invNo_step n _ _ (sAddNode n) (fun s h => invNo_keep h rfl rfl rfl)
+  · apply pres_ite
+    · exact pres_bind (pres_invNo_step n _ _ id (fun s h => h)) (fun _ => pres_refuse _)
+    · exact pres_invNo_step n _ _ (sAddNode n) (fun s h => invNo_keep h rfl rfl rfl)
   · apply pres_onThenFailure
     exact pres_invNo_step n _ _ (pRmNode n) (fun s h => invNo_zero h rfl rfl rfl)
 
@@ -145,7 +147,8 @@ def NodeAbsEq (s s' : State R) : Prop := AbsEq s s' ∧ s'.pnodes = s.pnodes
 nodes, plugin records, capacity, usage and workloads as they were. `hfresh`: a node the plugin has
 no record of reads as zero capacity / usage. -/
 theorem addNode_failed (n : String) (c : R) (flt : Option Addr) (ms : MS R)
-    (hfresh : ¬ ms.st.pnodes.contains n → ms.st.cap n = zero ∧ ms.st.usage n = zero) :
+    (hfresh : ¬ ms.st.pnodes.contains n → ms.st.cap n = zero ∧ ms.st.usage n = zero)
+    (hsub : ms.st.nodes.contains n = true → ms.st.pnodes.contains n = true) :
     wp (addNode n c) (fun o ms' => o = .fail → NodeAbsEq ms.st ms'.st) flt ms := by
   have same : ∀ ms' : MS R, ms'.st = ms.st → NodeAbsEq ms.st ms'.st := by
     intro ms' e; rw [e]; exact ⟨AbsEq.refl _, rfl⟩
@@ -162,6 +165,11 @@ theorem addNode_failed (n : String) (c : R) (flt : Option Addr) (ms : MS R)
       split <;> (intro _; exact same _ rfl)
     · rename_i hnot
       have hz := hfresh (by simpa using hnot)
+      have hns : ms.st.nodes.contains n = false := by
+        cases hc : ms.st.nodes.contains n with
+        | false => rfl
+        | true => exact absurd (hsub hc) hnot
+      simp only [hns, Bool.false_eq_true, if_false]
       wp_simp
       split
       · intro _; exact same _ rfl
@@ -217,5 +225,51 @@ theorem removeNode_failed_partial (n : String) (flt : Option Addr) (hG : RemoveN
             | (intro _; exact ⟨AbsEq.refl _, rfl⟩)
             | (intro hc; exact absurd hc (by simp))
     · intro _; exact same _ rfl
+
+/-- the plugin's view is well-formed: a node it has no record of reads as zero capacity / usage,
+and every node of the store has a plugin record -/
+def PluginWF (s : State R) : Prop :=
+  (∀ n, s.pnodes.contains n = false → s.cap n = zero ∧ s.usage n = zero) ∧
+  (∀ n, s.nodes.contains n = true → s.pnodes.contains n = true)
+
+theorem pluginWF_pAdd {s : State R} (n : String) (c : R) (h : PluginWF s) : PluginWF (pAddNode n c s) := by
+  refine ⟨fun m hm => ?_, fun m hm => ?_⟩
+  · simp only [pAddNode_pnodes, List.contains_cons, Bool.or_eq_false_iff, beq_eq_false_iff_ne, ne_eq] at hm
+    have := h.1 m hm.2
+    simp [hm.1, this]
+  · simp only [pAddNode_pnodes, List.contains_cons, Bool.or_eq_true]
+    exact Or.inr (h.2 m hm)
+
+/-- successful add-node keeps the plugin's view well-formed (the store record comes second) -/
+theorem pluginWF_addNode_ok {s : State R} (n : String) (c : R) (h : PluginWF s) :
+    PluginWF (sAddNode n (pAddNode n c s)) := by
+  have h1 := pluginWF_pAdd n c h
+  refine ⟨h1.1, fun m hm => ?_⟩
+  simp only [sAddNode_nodes, List.contains_eq_mem, List.mem_append, List.mem_singleton, decide_eq_true_eq] at hm
+  rcases hm with hm | rfl
+  · exact h1.2 m (by simpa using hm)
+  · simp
+
+/-- successful remove-node (store record first, plugin record second) keeps it well-formed when
+node names are distinct in the store -/
+theorem pluginWF_removeNode_ok {s : State R} (n : String) (h : PluginWF s) (hnd : s.nodes.Nodup) :
+    PluginWF (pRmNode n (sRmNode n s)) := by
+  refine ⟨fun m hm => ?_, fun m hm => ?_⟩
+  · by_cases hmn : m = n
+    · subst hmn; simp
+    · have : s.pnodes.contains m = false := by
+        cases hc : s.pnodes.contains m with
+        | false => rfl
+        | true =>
+          exfalso
+          simp only [pRmNode_pnodes, sRmNode_pnodes, List.contains_eq_mem, List.mem_filter, decide_eq_false_iff_not] at hm
+          apply hm
+          exact ⟨by simpa using hc, by simpa using hmn⟩
+      have := h.1 m this
+      simp [hmn, this]
+  · simp only [pRmNode_nodes, sRmNode_nodes, List.contains_eq_mem, List.mem_filter, decide_eq_true_eq] at hm
+    have hp := h.2 m (by simpa using hm.1)
+    simp only [pRmNode_pnodes, sRmNode_pnodes, List.contains_eq_mem, List.mem_filter, decide_eq_true_eq]
+    exact ⟨by simpa using hp, hm.2⟩
 
 end Eru.Cluster
